@@ -266,30 +266,34 @@ def r4_units(ctx):
     rp = init.params[1]
     st = {ast.unparse(n.targets[0]): ast.unparse(n.value) for n in walk_no_nested(init.node) if isinstance(n, ast.Assign)
           and isinstance(n.targets[0], ast.Attribute)}
+    # every store, with the conditions that hold where it executes (default + override, two-armed if and conditional expression all
+    # read the same way): attribute -> {condition on the cell (or '' when unconditional): value}
+    from .common import holds_at
     multi = {}
     for n in walk_no_nested(init.node):
         if isinstance(n, ast.Assign) and isinstance(n.targets[0], ast.Attribute):
-            multi.setdefault(ast.unparse(n.targets[0]), []).append(ast.unparse(n.value))
+            conds = [c for c in holds_at(n) if rp in c and 'mode' not in c and 'spacing' not in c]
+            multi.setdefault(ast.unparse(n.targets[0]), {})[' and '.join(sorted(conds))] = ast.unparse(n.value)
     want = {
-        'self.spacing': [f'{rp}.spacing * 1000000000.0'],
-        'self.power': ['None', f'db2lin({rp}.power) * 0.001'],
-        'self.nb_channel': ['None', f'int({rp}.nb_channel)'],
-        'self.path_bandwidth': ['0', f'{rp}.path_bandwidth * 1000000000.0'],
-        'self.source': [f"f'trx {{{rp}.source}}'"], 'self.destination': [f"f'trx {{{rp}.destination}}'"],
-        'self.request_id': [f'{rp}.request_id'], 'self.bidir': ['bidir'],
-        'self.loose': ["'LOOSE'", "'STRICT'"],
+        'self.spacing': {'': f'{rp}.spacing * 1000000000.0'},
+        'self.power': {f'{rp}.power is None': 'None', f'{rp}.power is not None': f'db2lin({rp}.power) * 0.001'},
+        'self.nb_channel': {f'{rp}.nb_channel is None': 'None', f'{rp}.nb_channel is not None': f'int({rp}.nb_channel)'},
+        'self.path_bandwidth': {f'{rp}.path_bandwidth is None': '0', f'{rp}.path_bandwidth is not None': f'{rp}.path_bandwidth * 1000000000.0'},
+        'self.source': {'': f"f'trx {{{rp}.source}}'"}, 'self.destination': {'': f"f'trx {{{rp}.destination}}'"},
+        'self.request_id': {'': f'{rp}.request_id'}, 'self.bidir': {'': 'bidir'},
+        'self.loose': {f'{rp}.is_loose': "'LOOSE'", f'not {rp}.is_loose': "'STRICT'"},
     }
     for k, v in want.items():
         ctx.check('R4.units', f'{site(init)} {k}', multi.get(k) == v, key(init, f'unit|{k}'),
                   f'{k} is built as {multi.get(k)}; expected {v} (GHz / Gbit/s x 1e9, dBm -> W, site transceiver names)')
-    strict = [n for n in walk_no_nested(init.node) if isinstance(n, ast.If) and ast.unparse(n.test) == f'not {rp}.is_loose']
-    ctx.check('R4.units', f'{site(init)} strictness', len(strict) == 1 and "self.loose = 'STRICT'" in ast.unparse(strict[0]),
+    ctx.check('R4.units', f'{site(init)} strictness', multi.get('self.loose', {}).get(f'not {rp}.is_loose') == "'STRICT'",
               key(init, 'strict'), "a row that is not loose does not become 'STRICT'")
     nl = multi.get('self.nodes_list')
     dj = multi.get('self.disjoint_from')
-    ctx.check('R4.units', f'{site(init)} route list', nl == ['[]', f"{rp}.nodes_list.split(' | ')"], key(init, 'route-list'),
+    ctx.check('R4.units', f'{site(init)} route list', nl == {f'{rp}.nodes_list': f"{rp}.nodes_list.split(' | ')", f'not {rp}.nodes_list': '[]'},
+              key(init, 'route-list'),
               "the route list is not the cell split on ' | '", str(nl))
-    ctx.check('R4.units', f'{site(init)} disjoint from', dj is not None and len(dj) == 1 and f"{rp}.disjoint_from.split(' | ')" in dj[0],
+    ctx.check('R4.units', f'{site(init)} disjoint from', dj is not None and len(dj) == 1 and f"{rp}.disjoint_from.split(' | ')" in dj.get('', ''),
               key(init, 'disjoint'), "the 'disjoint from' cell is not split on ' | '", str(dj))
     ps = cls.getters.get('pathsync')
     txt = ast.unparse(ps.node) if ps else ''
